@@ -88,7 +88,9 @@ def jar_case(rng):
             v = str(z); w, f = enc_value(rng, v) if rng.random() < 0.3 else (v, 'plain')
             if f == 'plain' and rng.random() < 0.1: i = rng.randrange(len(w)); w = w[:i] + '%%%02X' % ord(w[i]) + w[i + 1:]; f = 'pct'          # one escaped digit or sign
         parts.append(n + '=' + w); forms.append(f)
-        if rng.random() < 0.15: parts.append(rng.choice(['zz=1', 'other=%41', 'q="x"', 'u=a=b']))
+        if rng.random() < 0.2: parts.append(rng.choice(['zz=1', 'other=%41', 'q="x"', 'u=a=b',
+                                                         # an undeclared cookie is skipped whatever its value: cookie-octets that do not percent-decode, or not to UTF-8
+                                                         'zlang=caf%E9', 'zw=%FF', 'zk=%', 'ze=%zz', 'zh=%E3%81', 'zj=a%', 'zq="%FF"', 'zempty=']))
     header = '; '.join(parts)
     return {'case': {'kind': 'struct', 'tid': tid, 'ty': CAT[tid], 'input': header.encode().hex(), 'jar': True}, 'stream': 'jar'}
 
